@@ -82,6 +82,55 @@ class _InsertPass(ast.NodeTransformer):
         return node
 
 
+def _simple(e: ast.AST) -> bool:
+    return isinstance(e, (ast.Name, ast.Attribute, ast.Constant, ast.Subscript)) and not any(isinstance(x, ast.Call) for x in ast.walk(e))
+
+
+class _SwapEq(ast.NodeTransformer):
+    """a == b  ->  b == a   (also !=, is, is not) for call-free operands."""
+
+    def visit_Compare(self, node):
+        self.generic_visit(node)
+        if len(node.ops) == 1 and isinstance(node.ops[0], (ast.Eq, ast.NotEq, ast.Is, ast.IsNot)) and _simple(node.left) and _simple(node.comparators[0]) \
+                and not isinstance(node.comparators[0], ast.Constant):
+            node.left, node.comparators[0] = node.comparators[0], node.left
+        return node
+
+
+class _NestAnd(ast.NodeTransformer):
+    """if a and b: body   ->   if a:  if b: body     (no else branch)."""
+
+    def visit_If(self, node):
+        self.generic_visit(node)
+        if not node.orelse and isinstance(node.test, ast.BoolOp) and isinstance(node.test.op, ast.And) and len(node.test.values) == 2:
+            a, b = node.test.values
+            inner = ast.If(test=b, body=node.body, orelse=[])
+            return ast.If(test=a, body=[inner], orelse=[])
+        return node
+
+
+class _TmpReturn(ast.NodeTransformer):
+    """return <call/binop/compare>   ->   result_tmp = <expr>; return result_tmp"""
+
+    def _fix(self, body):
+        out = []
+        for st in body:
+            if isinstance(st, ast.Return) and isinstance(st.value, (ast.Call, ast.BinOp, ast.Compare, ast.BoolOp)):
+                out.append(ast.Assign(targets=[ast.Name(id="result_tmp", ctx=ast.Store())], value=st.value))
+                out.append(ast.Return(value=ast.Name(id="result_tmp", ctx=ast.Load())))
+            else:
+                out.append(st)
+        return out
+
+    def generic_visit(self, node):
+        super().generic_visit(node)
+        for field in ("body", "orelse", "finalbody"):
+            b = getattr(node, field, None)
+            if isinstance(b, list) and b and isinstance(b[0], ast.stmt):
+                setattr(node, field, self._fix(b))
+        return node
+
+
 def make_neutral(root: Path, kind: str) -> None:
     src_dir = root / "src" / core.PKG
     for p in sorted(src_dir.rglob("*.py")):
@@ -107,6 +156,10 @@ def make_neutral(root: Path, kind: str) -> None:
                     elif isinstance(st, ast.ClassDef):
                         rename_in(st)
             rename_in(tree)
+            new = ast.unparse(tree)
+        elif kind in ("swap-eq", "nest-and", "tmp-return"):
+            tree = {"swap-eq": _SwapEq, "nest-and": _NestAnd, "tmp-return": _TmpReturn}[kind]().visit(tree)
+            ast.fix_missing_locations(tree)
             new = ast.unparse(tree)
         else:
             raise ValueError(kind)
